@@ -276,6 +276,117 @@ fn weight_alphabet(nv: usize) -> Vec<(Vec<f64>, bool)> {
     }
 }
 
+/// Sets of many voices (5..17, thorough 65): weight vectors whose validity is decided by entries far from the start.
+fn many_voices_part(rep: &Report, tier: Tier) {
+    let cfg = GenCfg { gv: true, nstate: 2, ..GenCfg::default() };
+    let ns = cfg.ns;
+    let corpus = labels::corpus();
+    let utt = vec![corpus[41].clone(), corpus[42].clone()];
+    let mut calls = 0u64;
+    for nv in tier.pick(vec![5usize, 8, 9, 10, 16, 17], vec![5, 7, 8, 9, 10, 15, 16, 17, 24, 25, 33, 64, 65]) {
+        let voices: Vec<Arc<Voice>> = (0..nv).map(|v| Arc::new(load_voice_bytes(&GenCfg { variant: (v % 7) as u32, ..cfg.clone() }.bytes()).expect("generated voice"))).collect();
+        let base = match engine_from_voices(voices) {
+            Ok(e) => e,
+            Err(er) => {
+                rep.violation("many-voices-set", format!("{} compatible voices rejected: {}", nv, er), json!({"voices": nv}));
+                continue;
+            }
+        };
+        let eq = vec![1.0 / nv as f64; nv];
+        // (vector, valid)
+        let mut ws: Vec<(Vec<f64>, bool)> = Vec::new();
+        let unit = |k: usize| {
+            let mut v = vec![0.0; nv];
+            v[k] = 1.0;
+            v
+        };
+        ws.push((unit(0), true));
+        ws.push((unit(nv - 1), true));
+        ws.push((crate::props::c10::many_weights(nv)[4].clone(), true)); // ramp, every entry non-zero
+        let mut tail = vec![0.0; nv];
+        tail[nv - 1] = 0.5;
+        tail[nv - 2] = 0.5;
+        ws.push((tail, true));
+        // the first entries alone sum to 1, the rest adds more: sum 2 (for every split point 1..nv-1 that leaves two entries)
+        for head in [1usize, 4, 8, 16, 32, 64].into_iter().filter(|h| *h + 2 <= nv) {
+            let mut v = vec![0.0; nv];
+            for x in v.iter_mut().take(head) {
+                *x = 1.0 / head as f64;
+            }
+            v[nv - 1] = 0.5;
+            v[nv - 2] = 0.5;
+            ws.push((v.clone(), false));
+            // same head, the tail adds 1e-3 only / a NaN / cancels exactly (valid)
+            let mut w = v.clone();
+            w[nv - 1] = 1e-3;
+            w[nv - 2] = 0.0;
+            ws.push((w, false));
+            let mut w = v.clone();
+            w[nv - 1] = f64::NAN;
+            w[nv - 2] = 0.0;
+            ws.push((w, false));
+            let mut w = v.clone();
+            w[nv - 1] = 0.25;
+            w[nv - 2] = -0.25;
+            ws.push((w, true));
+            // head sums to 1/2, tail supplies the other half (valid)
+            let mut w = v.clone();
+            for x in w.iter_mut().take(head) {
+                *x = 0.5 / head as f64;
+            }
+            w[nv - 1] = 0.25;
+            w[nv - 2] = 0.25;
+            ws.push((w, true));
+        }
+        ws.push((vec![1.0 / (nv - 1) as f64; nv - 1], false));
+        ws.push((vec![1.0 / (nv + 1) as f64; nv + 1], false));
+        ws.push((vec![1.0 / 8.0; 8], false).clone());
+        if nv == 8 {
+            ws.pop();
+        }
+        for q in [0usize, 1, ns, 1 + ns, 2 * ns] {
+            let mut e = base.clone();
+            let mut reference: Vec<Vec<f64>> = vec![eq.clone(); 1 + 2 * ns];
+            let mut hist: Vec<Value> = Vec::new();
+            for (w, valid) in &ws {
+                calls += 1;
+                let a = WAct { quantity: q, w: w.clone(), valid: *valid, reload: 0 };
+                hist.push(json!({"quantity": q, "weights": w.iter().map(|x| format!("{:e}", x)).collect::<Vec<_>>(), "valid": valid}));
+                let r = catch(|| apply_real(&mut e, ns, &a));
+                rep.cmp(1);
+                let what = match r {
+                    Err(p) => Some(("panic", format!("panic: {}", p))),
+                    Ok(Ok(())) if !*valid => Some(("invalid-accepted", format!("invalid weights accepted (sum {})", w.iter().sum::<f64>()))),
+                    Ok(Err(er)) if *valid => Some(("valid-rejected", format!("valid weights (sum {}) rejected: {}", w.iter().sum::<f64>(), er))),
+                    Ok(Ok(())) => {
+                        reference[q] = w.clone();
+                        None
+                    }
+                    Ok(Err(_)) => None,
+                };
+                let what = what.or_else(|| getters_match(&e, ns, &reference).map(|m| ("getter-mismatch", m)));
+                if let Some((k, m)) = what {
+                    rep.violation(format!("many-voices-{}", k), format!("{} voices, quantity {}: {}", nv, q, m), json!({"voices": nv, "voice": cfg.describe(), "history": hist, "labels": utt}));
+                    break;
+                }
+            }
+            // synthesis after the history equals a fresh engine given only the effective weights
+            if q == 1 {
+                let mut fresh = base.clone();
+                let ok = apply_real(&mut fresh, ns, &WAct { quantity: q, w: reference[q].clone(), valid: true, reload: 0 }).is_ok();
+                rep.cmp(1);
+                match (synth(&e, &utt), synth(&fresh, &utt)) {
+                    (Ok(a), Ok(b)) if ok && bits_eq(&a, &b) => {}
+                    _ => rep.violation("many-voices-stale-or-leaked-weights", format!("{} voices: waveform after the history differs from a fresh engine with the effective weights", nv), json!({"voices": nv, "voice": cfg.describe(), "history": hist, "labels": utt})),
+                }
+            }
+        }
+    }
+    rep.eval(calls);
+    rep.transitions.fetch_add(calls, Ordering::Relaxed);
+    rep.note("many_voices", json!({"weight_update_calls": calls}));
+}
+
 fn voiceset_part(rep: &Report) {
     let cfg = GenCfg { gv: true, nstate: 2, ..GenCfg::default() };
     let a: Voice = load_voice_bytes(&cfg.bytes()).expect("generated voice");
@@ -417,9 +528,10 @@ pub fn run(tier: Tier) -> i32 {
     let rep: &'static Report = Box::leak(Box::new(Report::new("C19", tier, "model_checking")));
     let monitor = Arc::new(HangMonitor::start(rep, "C19 weight history"));
     let depth: u8 = tier.pick(2, 3);
-    rep.set_rule("HIST (stateright BFS): all histories over {set_duration/set_parameter(i)/set_gv(i) with weight vectors from {5 valid incl. vertices and (1.5,-.5); invalid: wrong lengths, sum off by 1e-6 and 0.1, NaN, (inf,-inf), large magnitudes, empty}; load_model of the condition in use with 1, 2 or 3 voices (equal weights of the new count must then be in force)} to the depth bound on real engines starting with 2 and 3 voices, getters and synthesis (vs a fresh engine given only the reference's effective weights) after every call; states merged by (depth, Debug rendering of the real InterporationWeight); plus SCOPE: VoiceSet::new on [], and on every list of 2-4 voices where one voice (in every position) or an identical pair differs in exactly one metadata field (in every position), in two fields of one stream (incl. vector length x windows with the same product, with and without GV) or in none; non-trivial = every state after at least one update");
+    rep.set_rule("HIST (stateright BFS): all histories over {set_duration/set_parameter(i)/set_gv(i) with weight vectors from {5 valid incl. vertices and (1.5,-.5); invalid: wrong lengths, sum off by 1e-6 and 0.1, NaN, (inf,-inf), large magnitudes, empty}; load_model of the condition in use with 1, 2 or 3 voices (equal weights of the new count must then be in force)} to the depth bound on real engines starting with 2 and 3 voices, getters and synthesis (vs a fresh engine given only the reference's effective weights) after every call; states merged by (depth, Debug rendering of the real InterporationWeight); plus one fixed history per quantity on sets of 5..17 voices (thorough 65) with weight vectors whose validity is decided by their last entries; plus SCOPE: VoiceSet::new on [], and on every list of 2-4 voices where one voice (in every position) or an identical pair differs in exactly one metadata field (in every position), in two fields of one stream (incl. vector length x windows with the same product, with and without GV) or in none; non-trivial = every state after at least one update");
     rep.assume("weight sums strictly between 1e-15 and 1e-6 away from 1 are unspecified by the property and not in the alphabet");
     voiceset_part(rep);
+    many_voices_part(rep, tier);
     let corpus = labels::corpus();
     let utt = vec![corpus[41].clone(), corpus[42].clone()];
     for (cfg, nv) in [(GenCfg { gv: true, nstate: 2, ..GenCfg::default() }, 2usize), (GenCfg { gv: false, ns: 2, nstate: 1, stage: 1, order: 4, ..GenCfg::default() }, 3usize)] {
